@@ -106,8 +106,12 @@ def run_case(case, mode="observe", only_arg=None):
         exc = type(e).__name__
         ctx.exc_text = repr(e)[:300]
     obs = None
+    held = []
     if mode == "observe":
         obs = observe(ctx, ret, exc)
+        # outputs the caller now holds and may write to: they must be copies, so nothing pyribs does later may change them
+        held = [(p, r, r.tobytes()) for p, r in (returned_arrays(ret) if ret is not None else [])
+                if r.dtype != object and r.size > 0 and r.flags.writeable]
     elif mode == "poison_caller":
         for a in ctx.args:
             if only_arg is None or a.name == only_arg:
@@ -115,6 +119,8 @@ def run_case(case, mode="observe", only_arg=None):
     elif mode == "poison_returned":
         poison_returned(ret)
     dig = ctx.digest()
+    if obs is not None:
+        obs["ret_changed"] = [p for p, r, b in held if r.tobytes() != b][:4]
     return ctx, obs, dig, exc
 
 
@@ -157,6 +163,9 @@ def oracle(case, obsA=None, digA=None, attribute=True):
     for name, o in obsA["args"].items():
         if o["mut"]:
             out.append({"effect": "mut", "arg": name, "text": "the caller's %s was changed by the call: %s" % (name, json.dumps(o.get("diff"))[:300])})
+    if obsA.get("ret_changed"):
+        out.append({"effect": "unstable", "arg": None, "text": "writable arrays handed out by the call (%s) were changed by LATER calls on the object "
+                    "while the caller held them: they are live views of internal state, not copies" % ", ".join(obsA["ret_changed"])})
     if obsA["args"]:
         _, _, digB, _ = run_case(case, "poison_caller")
         if digB != digA:
@@ -212,7 +221,9 @@ def classify(case, ctx_ep, f):
         return "dqd-jacobian-inplace"
     if eff == "ret" and (ctx_ep.startswith("Sliding.") or (ctx_ep in ("Scheduler.tell", "Scheduler.tell_dqd", "Bandit.tell") and kind == "sliding")):
         return "sliding-buffer-retains-caller"
-    if eff == "rw_store" and ctx_ep in ("Store.iter", "Archive.iter"):
+    if ctx_ep == "Emitter.ask" and eff in ("rw_self", "unstable", "rw_store"):
+        return "ask-returns-live-view"
+    if eff in ("rw_store", "unstable") and ctx_ep in ("Store.iter", "Archive.iter"):
         return "iter-writable-view"
     if eff == "mut" and ctx_ep == "viz.parallel_axes_plot":
         return "parallel-axes-sorts-caller-frame"
@@ -222,6 +233,8 @@ def classify(case, ctx_ep, f):
         return "operator-arg-retained"
     if eff == "ret" and ctx_ep in CTORS:
         return "ctor-arg-retained"
+    if eff == "unstable":
+        return "returned-array-live-view"
     return "unclassified:%s:%s:%s" % (ctx_ep, eff, arg)
 
 
@@ -274,7 +287,7 @@ EP_WEIGHTS = [
     ("Archive.sample_elites", 2), ("Archive.data", 4), ("Archive.best_elite", 2), ("Archive.iter", 3), ("Archive.index_of", 2),
     ("Archive.index_of_single", 1), ("CVT.ctor_centroids", 2), ("CVT.ctor_samples", 1), ("Grid.ctor", 1), ("Archive.cqd_score", 1),
     ("Proximity.compute_novelty", 1), ("Emitter.ctor", 6), ("Emitter.tell", 5), ("Emitter.tell_dqd", 5), ("Scheduler.tell", 5),
-    ("Scheduler.tell_dqd", 3), ("Bandit.tell", 2), ("Adam.ctor", 1), ("Adam.reset", 1), ("Adam.step", 1), ("GradAscent.ctor", 1),
+    ("Scheduler.tell_dqd", 3), ("Bandit.tell", 2), ("Emitter.ask", 5), ("Adam.ctor", 1), ("Adam.reset", 1), ("Adam.step", 1), ("GradAscent.ctor", 1),
     ("GradAscent.reset", 1), ("GradAscent.step", 1), ("viz", 3),
 ]
 
@@ -308,6 +321,13 @@ def gen_case(rng, ep=None, bias=None):
         cfg = base_cfg(rng, rng.choice(["grid", "cvt"]))
         cfg["emitter"] = rng.choice(["gaussian", "isoline", "es", "gae", "goe", "ga"])
         cfg["init"] = rng.choice([0, 1])
+    elif ep == "Emitter.ask":
+        cfg = base_cfg(rng, rng.choice(["grid", "cvt"]))
+        cfg["emitter"] = rng.choice(["gaussian", "isoline", "es", "gae", "goe", "ga"])
+        cfg["which"] = rng.choice(["ask", "ask_dqd"]) if cfg["emitter"] in ("gae", "goe") else "ask"
+        cfg["init"] = rng.choice([0, 1])
+        cfg["es"] = rng.choice(["cma_es", "sep_cma_es", "openai_es"])
+        cfg["grad_opt"] = rng.choice(["adam", "gradient_ascent"])
     elif ep == "Emitter.tell":
         cfg = base_cfg(rng, rng.choice(["grid", "cvt", "sliding"]))
         cfg["emitter"] = rng.choice(["gaussian", "isoline", "es", "es", "gae", "gae", "goe"])
@@ -361,7 +381,7 @@ def findings_of(case, driver):
     ctx, obs, pred, dis, orc, exc = evaluate(case, driver)
     kinds = {}
     for f in dis:
-        if f["effect"] in ("mut", "ret", "rw_store", "rcaller", "model-program-stuck", "exposed", "exp_store", "ro_store", "rw_self"):
+        if f["effect"] in ("mut", "ret", "rw_store", "rcaller", "model-program-stuck", "exposed", "exp_store", "ro_store", "rw_self"):  # all compared effects
             kinds.setdefault(classify(case, ctx.ep, f), []).append(("model-vs-impl", f))
     for f in orc:
         kinds.setdefault(classify(case, ctx.ep, f), []).append(("oracle", f))
@@ -505,6 +525,19 @@ def read_paths_case(rng, driver, rep):
     paths["iterelites"] = [[int(e["index"]), dec_row({f: e[f] for f in fields})] for e in df.iterelites()]
     cols = [[int(x) for x in df["index"]], [int(x) for x in df["objective"]]]
     paths["pandas"] = [[i, o] for i, o in zip(*cols)]
+    # what get_field / iterelites hand out are copies: writing into them changes neither the frame nor what a second call returns
+    from c12_util import canon
+    df_before = canon(df)
+    first = {"get_field": paths["get_field"], "iterelites": paths["iterelites"]}
+    handed = [gf, list(df.iterelites())]
+    poison_returned(handed)
+    gf2 = {f: df.get_field(f) for f in fields + ["index"]}
+    second = {"get_field": [[int(gf2["index"][k]), dec_row({f: gf2[f][k] for f in fields})] for k in range(len(df))],
+              "iterelites": [[int(e["index"]), dec_row({f: e[f] for f in fields})] for e in df.iterelites()]}
+    if canon(df) != df_before or second != first or canon(obj.data()) != canon(d):
+        rep.violation("writing into arrays handed out by ArchiveDataFrame.get_field / iterelites changed the frame, a later read of it, or the store",
+                      {"kind": "oracle", "case": {"readpaths": kind, "dtype": dt.name, "cap": cap, "ops": ops}, "first_read": first, "second_read": second,
+                       "frame_changed": canon(df) != df_before, "theorems_at_stake": ["C12_read_paths_agree"]}, True, {"kind": "df-read-not-a-copy"})
     mout = driver.call("C12", [1, cap, ops])
     mpaths = dict(zip(["dict", "tuple", "single", "iter", "pandas", "get_field", "iterelites"], mout))
     bad = {k: {"impl": paths[k], "model": mpaths[k]} for k in paths if paths[k] != mpaths[k]}
@@ -569,6 +602,11 @@ def forced_cases():
             for k in ("ctor", "reset", "step"):
                 mk("%s.%s" % (w, k), {"dtype": "float64"}, {ARG_NAMES["%s.%s" % (w, k)][0]: lay})
         mk("Store.from_raw_dict", {"dtype": "float64", "state": "some", "pseed": 1, "cap": 6}, {"occupied": lay, "solution": lay})
+    for em in ("gaussian", "isoline", "es", "gae", "goe", "ga"):
+        for which in (("ask", "ask_dqd") if em in ("gae", "goe") else ("ask",)):
+            for state in ("empty", "some"):
+                mk("Emitter.ask", {"kind": "grid", "dtype": "float64", "extras": 0, "state": state, "pseed": 1, "emitter": em, "which": which,
+                                   "init": 0, "mae": 0, "es": "cma_es", "grad_opt": "adam"}, {})
     for rt in E.RTYPES:
         mk("Store.data", {"dtype": "float64", "state": "some", "pseed": 1, "cap": 6, "rtype": rt}, {})
     for ep in ("Store.iter", "Store.as_raw_dict", "Store.occupied"):
